@@ -41,6 +41,7 @@ def on_stack(stack, x):
 class Dfs:
     properties = ["C23"]
     raises = []
+    public_io_only = True  # generator: seeds and adjacency lists; clauses: the returned set
 
     def requires(seeds, adjacency):
         return True
@@ -114,6 +115,7 @@ def step_edges_recorded(cfg, n, outgoing, event_types, step_names):
 class BuildStepGraphReach:
     properties = ["C23"]
     raises = []
+    public_io_only = True  # generator: step configs / start class / handler names; clauses: fields of the StepGraph
     notes = ("a second contract on build_step_graph (the plain one only names its result for validate_graph): what the "
              "two reachability sets of the REAL graph are, proved from the `_dfs` contract")
 
